@@ -30,12 +30,9 @@ if os.environ.get("VERIF_ALT_REPO"):
     SERVER_TARGET = os.path.join(BUILD, "target-server-" + _sfx)
     SERVER_BIN = os.path.join(SERVER_TARGET, "release", "pytest-language-server")
     _alt_h = os.path.join(BUILD, "harness-" + _sfx)
-    if not os.path.exists(_alt_h):
-        import shutil as _sh
-        _sh.copytree(HARNESS_DIR, _alt_h, ignore=_sh.ignore_patterns("target"))
-    for _f in os.listdir(os.path.join(HARNESS_DIR, "src")):
-        import shutil as _sh
-        _sh.copy(os.path.join(HARNESS_DIR, "src", _f), os.path.join(_alt_h, "src", _f))
+    import subprocess as _sp
+    os.makedirs(_alt_h, exist_ok=True)
+    _sp.run(["rsync", "-a", "--delete", "--exclude", "target", HARNESS_DIR + "/", _alt_h + "/"], check=True)
     _ct = open(os.path.join(HARNESS_DIR, "Cargo.toml")).read().replace('path = "/repo"', 'path = "%s"' % REPO)
     open(os.path.join(_alt_h, "Cargo.toml"), "w").write(_ct)
     _cc = open(os.path.join(HARNESS_DIR, ".cargo", "config.toml")).read().replace("../.build/target-harness", "../target-harness-" + _sfx)
